@@ -226,9 +226,33 @@ func checkBlock(t *rapid.T, s *sim.Scenario, before, after *ledger, b *types.Blo
 			}
 		}
 	}
-	// frozen assets do not move
+	// frozen assets do not move. Within a block the issuer may unfreeze and freeze again: follow the packaged transactions in order
+	refrozen := map[common.Hash]bool{}
+	{
+		frozenNow := map[common.Hash]bool{}
+		for code, fr := range before.frozen {
+			frozenNow[code] = fr
+		}
+		for _, tx := range flatten(b) {
+			switch tx.Type() {
+			case params.ModifyAssetTx:
+				if info, err := types.GetModifyAssetInfo(tx.Data()); err == nil {
+					if v, ok := info.UpdateProfile["freeze"]; ok {
+						frozenNow[info.AssetCode] = v == "true"
+						refrozen[info.AssetCode] = true
+					}
+				}
+			case params.TransferAssetTx:
+				if a := parseAssetTx(tx); a != nil {
+					if code, ok := after.codeOf[a.id]; ok && frozenNow[code] && a.amount != nil && a.amount.Sign() > 0 {
+						fail("asset %s is frozen at this point of the block but a transfer of %v of id %s was packaged", code.Hex()[58:], a.amount, a.id.Hex()[58:])
+					}
+				}
+			}
+		}
+	}
 	for code, fr := range before.frozen {
-		if !fr || !after.frozen[code] {
+		if !fr || !after.frozen[code] || refrozen[code] {
 			continue
 		}
 		for h, ids := range after.equity {
